@@ -22,7 +22,7 @@ import real
 from rbacx.core.engine import Guard
 from rbacx.policy import loader as rloader
 
-FLAVOURS = ["sync", "async", "sync-in-loop", "sync-collab-async", "async-collab-async"]
+FLAVOURS = ["sync", "async", "sync-in-loop", "sync-collab-async", "async-collab-async", "sync-collab-awaitable", "async-collab-awaitable"]
 WATCHDOG = 8.0
 
 
@@ -221,7 +221,7 @@ def concurrency(run: lib.Run):
 def check(run: lib.Run, audit: dict) -> int:
     run.rule = ("deadlock: per-run obligation over 5 traced scenarios (check / start+stop × plain / running loop × initial load) + every blocking "
                 "entry point × {plain thread, running loop, worker thread} under a watchdog (23 probes per context incl. async source, stop(None) "
-                "with the poller mid-check, stop/start/diagnostics with the poller stuck inside source.load()/etag()); flavours: C01 template pool (subsampled) + random grammar cases × 5 flavours with recording sinks, "
+                "with the poller mid-check, stop/start/diagnostics with the poller stuck inside source.load()/etag()); flavours: C01 template pool (subsampled) + random grammar cases × 7 flavours (sync / async API / sync inside a loop × sync, async-def and awaitable-returning collaborators) with recording sinks, "
                 "policy/request canonical form compared before/after; one batch of 60 concurrent evaluate_async over 12 engines against the "
                 "sequential results. non-trivial = a rule decided")
     run.assumptions = ["flavour equality, non-interference and non-mutation are observed, not proved (PARTIAL)",
